@@ -6,9 +6,9 @@ NOTE_COMMON = ("Trusted: Lean kernel + {propext, Classical.choice, Quot.sound}; 
 
 TEXT = {
     "C09": {
-        "level": "C09_apply_total: under the reachable-state assumptions ApplyPre, applying ANY batch of arbitrary transactions returns a state or a rejection, never a crash (every panic / overflow / unwrap site of the code is a `crash` outcome of the model; all four crashing phases are covered); C09_load_total, C09_stake_info_total, C09_scripts_total hold unconditionally; C09_seal_total and C09_seal_ok: under SealTotalPre sealing with any action never crashes and never rejects; C09_swap/deposit/withdraw/action/swaps_total; machine-checked witnesses show each assumption is needed (C09_swap_needs_u128, C09_doscmint_*_crash, C09_reward_overflow_witness). Termination is by construction plus C11. The real code is run on hostile inputs (arbitrary bytes in data/covenants/signatures, zero and maximal values, 254-256 outputs, garbage proofs and stake documents, every delta) under catch_unwind; a panic is an output the model must match.",
+        "level": "C09_apply_total: under the reachable-state assumptions ApplyPre, applying ANY batch of arbitrary transactions returns a state or a rejection, never a crash (every panic / overflow / unwrap site of the code is a `crash` outcome of the model; all four crashing phases are covered); C09_load_total, C09_stake_info_total, C09_scripts_total hold unconditionally; C09_seal_total and C09_seal_ok(_priced): under SealTotalPre (which since the fix for F24 no longer assumes that a builtin pool is not drained by the block's withdrawals: a drained one is re-created before its price is read — C09_drained_ergsym_seals at the very state that used to crash) sealing with any action never crashes and never rejects, and leaves every builtin pool priced; C09_swap/deposit/withdraw/action/swaps_total; machine-checked witnesses show each assumption is needed (C09_swap_needs_u128, C09_doscmint_*_crash, C09_reward_overflow_witness). Termination is by construction plus C11. The real code is run on hostile inputs (arbitrary bytes in data/covenants/signatures, zero and maximal values, 254-256 outputs, garbage proofs and stake documents, every delta) under catch_unwind; a panic is an output the model must match.",
         "design_ref": "DESIGN.md §4 C09",
-        "note": NOTE_COMMON + " Repaired by fix: commits: F3, F3b, F16, F7, F10 (assert), F18, withdraw guard. Also repaired: F13, F19, F2, F21, F22, F23. Open known findings: F9, F17, K-faucet-liq.",
+        "note": NOTE_COMMON + " Repaired by fix: commits: F3, F3b, F16, F7, F10 (assert), F18, withdraw guard. Also repaired: F13, F19, F2, F21, F22, F23, F24. Open known findings: F9, F17.",
         "technique": "Lean 4 totality theorems over an explicit crash outcome + hostile-input differential execution",
     },
     "C10": {
@@ -90,7 +90,7 @@ TEXT = {
         "technique": "Lean 4 iff-characterisation of apply_block + differential execution + block-mutation facts",
     },
     "C07": {
-        "level": "Merkle part (generic in the two hash functions, with novasmt's zero rules): the root computed by insertions equals the root of the content (C07_root_of_content) so equal contents give equal roots, inserts commute, deletes restore; proofs are complete (C07_proof_complete) and, with hash injectivity away from the zero rules, sound (C07_proof_sound), and different contents have different roots; dense tree completeness (C07_dense_complete); non-vacuity with concrete injective hashers. Chain part: C07_chain (height+1, previous = hash of parent header, network constant, history extended by exactly the parent header), C07_sensitive (equal headers ⇒ equal coins, counts, pools, stakes, transactions, history, fee pool, multiplier, DOSC speed — not tips), C07_scalar_change. Headers produced by next_unsealed / apply_block / restore are compared with the model field by field (the model computes scalars, previous-hash and heights itself).",
+        "level": "Merkle part (generic in the two hash functions, with novasmt's zero rules): the root computed by insertions equals the root of the content (C07_root_of_content) so equal contents give equal roots, inserts commute, deletes restore; proofs are complete (C07_proof_complete) and, with hash injectivity away from the zero rules, sound (C07_proof_sound), and different contents have different roots; dense tree completeness (C07_dense_complete); non-vacuity with concrete injective hashers. Chain part: C07_chain (height+1, previous = hash of parent header, network constant, history extended by exactly the parent header), C07_sensitive (equal headers ⇒ equal coins, counts, pools, stakes, transactions, history, fee pool, multiplier, DOSC speed — not tips), C07_scalar_change. Headers produced by next_unsealed / apply_block / restore are compared with the model field by field (the model computes scalars, previous-hash and heights itself); harness facts check on the real trees that every root is the root of an independently built tree of the state's content, that members and absences are provable, and — at the end of every history — that each sealed state's header read again is still the header it was sealed with.",
         "design_ref": "DESIGN.md §4 C07",
         "note": NOTE_COMMON + " novasmt's hexary compression and node store are only exercised. Collision-freeness is an explicit hypothesis.",
         "technique": "Lean 4 theorems on a symbolic SMT and on the header chain + differential execution",
@@ -108,7 +108,7 @@ TEXT = {
         "technique": "Lean 4 invariant + Nat-arithmetic theorems + differential execution + settlement oracle",
     },
     "C16": {
-        "level": "C16_builtins_created / C16_builtins_exist (after every successful seal each builtin pool exists), C16_default_has_reserves, C16_partial_withdraw_keeps_reserves, C16_deposit_keeps_reserves, C16_deposit_amounts_positive, C16_subsidy_keeps_reserves, C16_issue_backed (tokens handed out for a block's deposits into a pool never exceed the liquidity recorded for them), C16_withdraw_guard, C16_old_overissue (what was wrong before the fix, F10). Pools after every seal are compared with the model; a Python oracle checks on the real dumps that the builtin pools exist with reserves and that liquidity tokens held in coins never exceed pool.liqs. History level (Props/C16Hist): Backed (tokens of a pool in coins and in other pools' reserves ≤ the liquidity the pool records) is preserved by every batch that does not mint the token, by settlement, builtin creation, pegging and the whole sealState, for canonical pool keys outside the legacy deposit window (C16_backed_batch / _settle / _seal); C16_old_saturating_deposit and C16_saturating_deposit_skipped record the defect K-liq-saturation and its fix.",
+        "level": "C16_builtins_created / C16_builtins_exist (after every successful seal each builtin pool exists), C16_default_has_reserves, C16_partial_withdraw_keeps_reserves, C16_deposit_keeps_reserves, C16_deposit_amounts_positive, C16_subsidy_keeps_reserves, C16_issue_backed (tokens handed out for a block's deposits into a pool never exceed the liquidity recorded for them), C16_withdraw_guard, C16_old_overissue (what was wrong before the fix, F10). Pools after every seal are compared with the model; a Python oracle checks on the real dumps that the builtin pools exist with reserves and that liquidity tokens held in coins never exceed pool.liqs. History level (Props/C16Hist): Backed (tokens of a pool in coins and in other pools' reserves ≤ the liquidity the pool records) is preserved by every batch that does not mint the token, by settlement, builtin creation, pegging and the whole sealState, for canonical pool keys outside the legacy deposit window (C16_backed_batch / _settle / _seal); C16_old_saturating_deposit and C16_saturating_deposit_skipped record the defect K-liq-saturation and its fix; C16_builtins_priced_after_withdrawals, C16_drained_ergsym_seals / _recreated / _sealed_values and C16_old_drained_ergsym_crashes record F24 (a builtin pool emptied by the block's withdrawals is re-created before pegging reads its price) and its fix.",
         "design_ref": "DESIGN.md §4 C16",
         "note": NOTE_COMMON + " The history-level invariant is checked by the oracle, its per-step lemmas are proved. K-faucet-liq (an off-mainnet faucet can mint liquidity tokens) is an open known finding.",
         "technique": "Lean 4 per-step invariant lemmas + differential execution + backing oracle",
